@@ -71,7 +71,7 @@ CHECKS = {
     "C17": dict(category="model_checking",
         technique="TLA+ spec Instances.tla (encoder/decoder instances of one process + the process-global state the code shares between them: block-geometry tables, kernel dispatch pointers, the decoder allocation list); TLC decides NoInterference per population; real library bound through outputs: harness multi_record runs the instances of a group in one process and Observe.tla compares every instance item by item with its solo run",
         text="Design level: all interleavings of init/encode/decode/teardown steps of 2-3 instances per population (same configuration, differing superblock size / cpu flags / process counts, concurrent or staggered init, two decoders, encoder+decoder); implementation level: sampled groups (pairs/triples, 8/10 bit, presets on both sides of the reference-count boundaries in both orders, asm levels, sizes) run under the usage disciplines for which the model guarantees non-interference, whose outputs must equal the solo outputs; the populations the model rejects are run too and recorded as findings.",
-        note="Races that do not change an output are only visible in the model (no TSan run); the populations the model shows to interfere are recorded findings and the corresponding real groups crash as predicted.", design="4 (C17)"),
+        note="Shared mutable state is enumerated on the real library with a ThreadSanitizer build (two undisciplined instances: every process-global variable in a reported race must be a listed finding, by name or as a dispatch pointer); the populations the model shows to interfere are recorded findings and the corresponding real groups crash as predicted.", design="4 (C17), 11"),
     "C18": dict(category="exploration",
         technique="trace validation against Bitstream.tla (QOK) of base_q_idx in every frame header read by the independent parser; expectations from the configuration only",
         text="Bounds [Q(min),Q(max)] for rate control, (1,63) for CQP, exact value for fixed-qindex-offset mode.", note="2-pass not exercised; uniform layer offsets.", design="4 (C18)"),
